@@ -517,7 +517,9 @@ def factorize_2d(
 
     if sort:
         argsort = multi_index.argsort()
-        combined_codes = np.argsort(argsort)[combined_codes]
+        # remap the codes to the sorted labels; the null code stays null
+        has_key = combined_codes >= 0
+        combined_codes[has_key] = np.argsort(argsort)[combined_codes[has_key]]
         multi_index = multi_index[argsort]
 
     return combined_codes, multi_index
